@@ -51,6 +51,7 @@ type lcHist struct {
 	panics    []string
 	cancelSeq int64 // seq of first committed SwapCanceled record
 	events    int
+	whileDown func(h *lcHist) // runs once, right before the first restart after a crash
 }
 
 func (h *lcHist) attach() {
@@ -94,6 +95,12 @@ func (h *lcHist) attach() {
 // revive restarts the victim if it died and lets the world settle.
 func (h *lcHist) revive() {
 	if !h.victim.Alive() {
+		if h.whileDown != nil {
+			// things that happen in the world while the process is not running (once)
+			f := h.whileDown
+			h.whileDown = nil
+			f(h)
+		}
 		h.victim.CrashAt = 0 // a crash point fires once
 		if err := h.victim.Restart(); err == nil {
 			h.p.w.Run()
